@@ -149,9 +149,17 @@ class Engine:
                     if nm in names:
                         out.append(e)
                 else:
-                    names = callee if isinstance(callee, (set, list, tuple)) else [callee]
+                    names = list(callee) if isinstance(callee, (set, list, tuple)) else [callee]
+                    # a callee that was renamed is recognised by its recorded signature
+                    for n_ in list(names):
+                        if isinstance(n_, str) and '::' not in n_:
+                            rn = self.F.renamed_callee(n_)
+                            if rn:
+                                names.append(rn)
                     if (nm in names or e.q in names) and (kind == 'call' or e.tried):
                         out.append(e)
+                        if e.callee and nm in names:
+                            self.F.record_callee(nm, e.callee)
             elif kind == 'assign' and e.kind in ('assign', 'let'):
                 out.append(e)
             elif kind == 'struct' and e.kind == 'struct':
